@@ -224,4 +224,47 @@ Section Examples.
   Example ex_window_fails :
     run ex_window (mkInput [InBuf 0 [(8, 1)] (repeat (Some (Q2Qc 0)) 8)] []) = Fails OOB.
   Proof. vm_compute. reflexivity. Qed.
+  (** the other three findings of the search, as exported from the programs exo accepts:
+      (ii) an access beyond the window's own extent:  w = x[0:4]; y[0] = w[5] *)
+  Definition ex_own : proc :=
+    Proc [(x, KTensor [Int 8] false); (y, KTensor [Int 8] false)] []
+         [WindowS w (WindowE x [Interval (Int 0) (Int 4)]); Assign y [Int 0] (Read w [Int 5])].
+  (** (iii) a read inside the argument of an extern:  x[0] = relu(y[8]) *)
+  Definition ex_extern : proc :=
+    Proc [(x, KTensor [Int 8] false); (y, KTensor [Int 8] false)] []
+         [Assign x [Int 0] (Extern XRelu [Read y [Int 8]])].
+  (** (iv) a window alias passed by name:  w = x[6:10]; sub(w)  with  sub(dst: [R][4]): dst[3] = 1.0 *)
+  Definition ex_sub4 : proc :=
+    Proc [(dst, KTensor [Int 4] true)] [] [Assign dst [Int 3] (Real (Q2Qc 1))].
+  Definition ex_byname : proc :=
+    Proc [(x, KTensor [Int 8] false)] []
+         [WindowS w (WindowE x [Interval (Int 6) (Int 10)]); Call ex_sub4 [Read w []]].
+
+  Definition buf8 : inarg := InBuf 0 [(8, 1)] (repeat (Some (Q2Qc 0)) 8).
+
+  Example findings_fail :
+    run ex_own (mkInput [buf8; buf8] []) = Fails OOB /\
+    run ex_extern (mkInput [buf8; buf8] []) = Fails OOB /\
+    run ex_byname (mkInput [buf8] []) = Fails OOB.
+  Proof. vm_compute. auto. Qed.
+
+  (** ... and each has an invalid VC *)
+  Ltac refute_closed_vc :=
+    let HV := fresh "HV" in let X := fresh "X" in
+    intro HV; specialize (HV (fun _ => VInt 0));
+    match type of HV with _ -> _ -> ?concl =>
+      assert (X : concl) by (apply HV; [intros v b []|intros h []])
+    end;
+    vm_compute in X; discriminate X.
+
+  Example findings_invalid_vcs :
+    (exists vc, In vc (vcgen ex_own) /\ ~ valid vc) /\
+    (exists vc, In vc (vcgen ex_extern) /\ ~ valid vc) /\
+    (exists vc, In vc (vcgen ex_byname) /\ ~ valid vc).
+  Proof.
+    split; [|split].
+    - exists (mkVC [] [] (in_bounds (Int 5) (BinOp OSub (Int 4) (Int 0)))). split; [vm_compute; tauto|]. refute_closed_vc.
+    - exists (mkVC [] [] (in_bounds (Int 8) (Int 8))). split; [vm_compute; tauto|]. refute_closed_vc.
+    - exists (mkVC [] [] (in_interval (Int 6) (Int 10) (Int 8))). split; [vm_compute; tauto|]. refute_closed_vc.
+  Qed.
 End Examples.
